@@ -115,6 +115,7 @@ type ConsState struct {
 	Plan        ConsPlan
 	Rtmp        *actors.RtmpClient
 	Http        *actors.HttpClient
+	Rtsp        *actors.RtspClient
 	Joined      bool
 	Left        bool
 	Kicked      bool
@@ -353,6 +354,11 @@ func (rr *RelayRun) exec(k *sim.Kernel, op RelayOp) {
 			c.Http = a
 			a.Connect(PortHttp, 50+op.Cons)
 			rr.W.Observe(a.Observe)
+		case "rtsp", "rtspudp":
+			a := actors.NewRtspClient(k, cname, "play", fmt.Sprintf("rtsp://127.0.0.1:%d/live/%s%s", PortRtsp, name, q), c.Plan.Proto == "rtsp")
+			a.ClientPort = 21000 + 10*op.Cons
+			c.Rtsp = a
+			a.Connect(PortRtsp, 50+op.Cons)
 		}
 	case "stall", "resume", "drip":
 		if op.Cons >= len(rr.Cons) || !rr.Cons[op.Cons].Joined {
@@ -364,6 +370,8 @@ func (rr *RelayRun) exec(k *sim.Kernel, op RelayOp) {
 			conn = c.Rtmp.Conn
 		} else if c.Http != nil {
 			conn = c.Http.Conn
+		} else if c.Rtsp != nil {
+			conn = c.Rtsp.Conn
 		}
 		if conn == nil {
 			return
@@ -404,6 +412,8 @@ func (rr *RelayRun) exec(k *sim.Kernel, op RelayOp) {
 				conn = c.Rtmp.Conn
 			} else if c.Http != nil {
 				conn = c.Http.Conn
+			} else if c.Rtsp != nil {
+				conn = c.Rtsp.Conn
 			}
 			if conn == nil {
 				return
@@ -446,6 +456,9 @@ func (rr *RelayRun) exec(k *sim.Kernel, op RelayOp) {
 		}
 		if c.Http != nil {
 			c.Http.Leave(op.Reset)
+		}
+		if c.Rtsp != nil {
+			c.Rtsp.Leave(op.Reset)
 		}
 	}
 }
